@@ -11,6 +11,9 @@ def kernel_structure(t_unit: Any) -> dict:
     """Instruction / dependency / variable structure of the entry kernel."""
     import loopy as lp
     knl = t_unit.default_entrypoint
+    if knl.substitutions:
+        # reads inside substitution rules belong to the invoking instructions
+        knl = lp.expand_subst(knl)
     ids = sorted(insn.id for insn in knl.instructions)
     num = {i: k + 1 for k, i in enumerate(ids)}
     inputs = sorted(a.name for a in knl.args
@@ -29,7 +32,9 @@ def kernel_structure(t_unit: Any) -> dict:
         writes = sorted(insn.assignee_var_names()) if hasattr(insn, "assignee_var_names") \
             else []
         reads = sorted(v for v in insn.read_dependency_names()
-                       if v in knl.temporary_variables or v in outputs)
+                       if (v in knl.temporary_variables
+                           and _nonempty(knl.temporary_variables[v].shape))
+                       or (v in outputs and _nonempty(knl.arg_dict[v].shape)))
         insns.append({"id": insn.id, "n": num[insn.id], "deps": deps,
                       "writes": [w for w in writes], "reads": reads,
                       "within": sorted(insn.within_inames),
